@@ -1,6 +1,157 @@
-import Log4rsModel.Rolling.File
-namespace Log4rs.Rolling
+import Log4rsModel.Rolling.LemmasConc
+/-
+C04 — File appender: acknowledged records are visible, whole, ordered, not interleaved.
+Model: `Rolling/BufWriter.lean` (std BufWriter, capacity 1024), `Rolling/File.lean`
+(FileAppender, sequential histories, the lock machine). Specification: `Rolling/Spec.lean`.
 
-theorem C04_flush_empties (w : BufFile) : w.flush.buf = [] := rfl
+Assumption of the concurrent part, stated once: `parking_lot::Mutex` gives mutual exclusion and
+the guard spans encode + flush as in `FileAppender::append` (that is how `stepThread` is
+written). A guard narrowed in the code is not visible to these theorems; it is looked for by the
+harness's multi-thread exploration with the critical-section amplifier.
+-/
+namespace Log4rs.Rolling
+open FileAppender
+
+/-- Once `append` has returned, the complete encoded record is on disk behind what was there and
+nothing is left in the buffer — for every chunking the encoder may use (no slice, empty slices,
+1023/1024/1025-byte slices, many slices). -/
+theorem C04_append_visible (w : BufFile) (r : Rec) (hq : w.buf = []) :
+    (append w r).disk = w.disk ++ encBytes r ∧ (append w r).buf = [] := by
+  simp [append_disk, hq]
+
+/-- Only the bytes matter: two chunkings of the same record leave the same file. -/
+theorem C04_chunking_irrelevant (w : BufFile) (r₁ r₂ : Rec) (hq : w.buf = [])
+    (h : encBytes r₁ = encBytes r₂) : append w r₁ = append w r₂ := by
+  have h1 := C04_append_visible w r₁ hq
+  have h2 := C04_append_visible w r₂ hq
+  cases h₁ : append w r₁; cases h₂ : append w r₂
+  simp_all
+
+/-- After any sequence of appends the file is exactly what open left there followed by the whole
+records in call order. -/
+theorem C04_history_concat (m : OpenMode) (pre : Option Bytes) (rs : List Rec) :
+    (runOps m (build m pre) (rs.map Op.append)).disk = openContent m pre ++ rs.flatMap encBytes ∧
+    (runOps m (build m pre) (rs.map Op.append)).buf = [] :=
+  runOps_appends m rs (build m pre) rfl
+
+/-- Observed after every single call, for every history of appends and restarts in both modes:
+what another reader sees is what the statement says (`Spec.expectedTrace`): append mode keeps
+everything ahead of the new records, truncate mode discards at open time only. -/
+theorem C04_trace_eq_spec (m : OpenMode) (pre : Option Bytes) (ops : List Op) :
+    trace m (build m pre) ops = Spec.expectedTrace m pre ops :=
+  trace_eq_fileTrace m ops (build m pre) rfl
+
+/-- the two open modes -/
+theorem C04_open_modes (c : Bytes) :
+    openContent .append (some c) = c ∧ openContent .append none = [] ∧
+    (∀ pre, openContent .truncate pre = []) := ⟨rfl, rfl, fun _ => rfl⟩
+
+/-- Every state any scheduler can reach from the start of `progs` (the per-thread lists of
+appends) satisfies:
+* lock free ⇒ nothing is buffered and the file is `initial ++` the committed records, whole, in
+  commit order;
+* the commit log is a merge of the threads' sequences: restricted to thread `j` it is exactly what
+  `j` has had acknowledged (plus the record `j` has flushed but not yet returned from), every entry
+  belongs to a thread, and what a thread has acknowledged is a prefix of its program — so nothing is
+  lost, duplicated or reordered;
+* lock held ⇒ the file is the committed whole records followed by a prefix of one record (the
+  holder's), never a mixture. -/
+theorem C04_schedule_serial (m : OpenMode) (pre : Option Bytes) (progs : List (List Rec)) (sched : List Nat) :
+    let s := runSched (CState.init m pre progs) sched
+    (s.holder = none → s.w.buf = [] ∧ s.w.disk = openContent m pre ++ s.committed) ∧
+    (∀ j t, s.threads[j]? = some t →
+        ∃ p, progs[j]? = some p ∧ t.acked <+: p ∧
+          (s.logOf j = t.acked ∨ ∃ r, t.pc = .flushed r ∧ s.logOf j = t.acked ++ [r])) ∧
+    (∀ e ∈ s.log, e.1 < progs.length) ∧
+    (∀ h, s.holder = some h → ∃ r q, q <+: encBytes r ∧ s.w.disk = openContent m pre ++ s.committed ++ q) := by
+  intro s
+  have inv : CInv progs (openContent m pre) s := (CInv.init m pre progs).run sched
+  have rng : LogRange progs.length s :=
+    LogRange.run sched (s := CState.init m pre progs) ⟨by simp [CState.init], by simp [CState.init]⟩
+  refine ⟨?_, ?_, rng.2, ?_⟩
+  · intro hh
+    have lk := inv.lockOk
+    simp only [LockOk, hh] at lk
+    exact ⟨lk.2.1, lk.2.2⟩
+  · intro j t ht
+    obtain ⟨⟨p, hp1, hp2⟩, hl⟩ := inv.threadsOk j t ht
+    refine ⟨p, hp1, ⟨t.todo, hp2⟩, ?_⟩
+    cases hpc : t.pc with
+    | idle => simp only [hpc] at hl; exact Or.inl hl
+    | writing r dn rest => simp only [hpc] at hl; exact Or.inl hl.1
+    | flushed r => simp only [hpc] at hl; exact Or.inr ⟨r, rfl, hl.1⟩
+  · intro h hh
+    have lk := inv.lockOk
+    simp only [LockOk, hh] at lk
+    obtain ⟨t, ht, _, hbody⟩ := lk
+    obtain ⟨_, hl⟩ := inv.threadsOk h t ht
+    cases hpc : t.pc with
+    | idle => simp [hpc] at hbody
+    | writing r dn rest =>
+      simp only [hpc] at hbody hl
+      obtain ⟨q, hq1, hq2⟩ := hbody
+      refine ⟨r, q, ?_, hq1⟩
+      refine ⟨s.w.buf ++ rest.flatten, ?_⟩
+      rw [← List.append_assoc, hq2, hl.2.2]
+      simp [encBytes]
+    | flushed r =>
+      simp only [hpc] at hbody
+      exact ⟨r, [], List.nil_prefix, by simp [hbody.2]⟩
+
+/-- In particular: when all threads have finished, the file is `initial ++` a merge of all the
+threads' programs, each thread's records in its own order. -/
+theorem C04_quiescent_all_done (m : OpenMode) (pre : Option Bytes) (progs : List (List Rec)) (sched : List Nat)
+    (hdone : ∀ (j : Nat) (t : Thread), (runSched (CState.init m pre progs) sched).threads[j]? = some t →
+      t.todo = [] ∧ t.pc = Pc.idle) :
+    let s := runSched (CState.init m pre progs) sched
+    s.w.disk = openContent m pre ++ s.committed ∧ ∀ j p, progs[j]? = some p → s.logOf j = p := by
+  intro s
+  have inv : CInv progs (openContent m pre) s := (CInv.init m pre progs).run sched
+  have rng : LogRange progs.length s :=
+    LogRange.run sched (s := CState.init m pre progs) ⟨by simp [CState.init], by simp [CState.init]⟩
+  have hfree : s.holder = none := by
+    cases hh : s.holder with
+    | none => rfl
+    | some h =>
+      have lk := inv.lockOk
+      simp only [LockOk, hh] at lk
+      obtain ⟨t, ht, _, hbody⟩ := lk
+      have := (hdone h t ht).2
+      simp [this] at hbody
+  have lk := inv.lockOk
+  simp only [LockOk, hfree] at lk
+  refine ⟨lk.2.2, ?_⟩
+  intro j p hp
+  have hj : j < s.threads.length := by
+    rw [rng.1]
+    exact (List.getElem?_eq_some_iff.mp hp).1
+  have ht : s.threads[j]? = some s.threads[j] := List.getElem?_eq_getElem hj
+  obtain ⟨⟨p', hp1, hp2⟩, hl⟩ := inv.threadsOk j _ ht
+  have hd := hdone j _ ht
+  rw [hp] at hp1
+  have : p' = p := (Option.some.inj hp1).symm
+  subst this
+  simp only [hd.2] at hl
+  rw [hd.1] at hp2
+  simpa [CState.logOf, hl] using hp2
+
+/-! ### non-vacuity (tests on samples, not proofs of the property) -/
+
+/-- every branch of the spill rule is reachable: fill exactly, spill, write-through -/
+example : (append (build .append (some [1, 2])) [List.replicate 1000 7, List.replicate 24 8, [9]]).disk.length = 1027 := by
+  decide +kernel
+
+/-- two threads, records of 1500 and 3 bytes; the scheduler switches to thread 1 while thread 0
+is inside the critical section (thread 1's picks are skipped: it is blocked on the lock) -/
+example :
+    let s := runSched (CState.init .truncate none [[[List.replicate 1500 1]], [[[2, 2, 2]]]]) [0, 1, 0, 1, 1, 0, 1, 0, 1, 1, 1, 1]
+    s.holder = none ∧ s.w.disk = List.replicate 1500 1 ++ [2, 2, 2] ∧ s.log.map (·.1) = [0, 1] := by
+  decide +kernel
+
+/-- the same programs under another schedule commit in the other order -/
+example :
+    let s := runSched (CState.init .truncate none [[[List.replicate 1500 1]], [[[2, 2, 2]]]]) [1, 0, 1, 0, 1, 1, 0, 0, 0, 0]
+    s.holder = none ∧ s.w.disk = [2, 2, 2] ++ List.replicate 1500 1 ∧ s.log.map (·.1) = [1, 0] := by
+  decide +kernel
 
 end Log4rs.Rolling
